@@ -478,7 +478,7 @@ func queryOracle(c carrier, m model, q qname, probs *[]problem) {
 				*probs = append(*probs, problem{"query-wrong", name, fmt.Sprintf("QueryService(%s) = (%s, %s), registered was (%s, %s)", name, id(d), id(h), id(want.desc), id(want.handler))})
 			}
 		} else if d != nil || h != nil {
-			*probs = append(*probs, problem{"query-ghost", name, fmt.Sprintf("QueryService(%s) of a name never registered = (%v, %v)", name, d, h)})
+			*probs = append(*probs, problem{"query-ghost", name, fmt.Sprintf("QueryService(%q) of a name never registered = (%s, %s)", name, id(d), id(h))})
 		}
 		return
 	}
